@@ -46,3 +46,24 @@ CHECKS['C08'] = dict(
     min_nontrivial={'quick': 300, 'thorough': 300},
     min_counters={'quick': {'sequences_ok': 50000, 'patched_ok': 100, 'shrunk_ok': 100}, 'thorough': {'sequences_ok': 1000000}},
 )
+
+CHECKS['C01'] = dict(
+    level='exploration',
+    rule="Each case is a decoder (random Fs, channels / multistream layout / projection matrix) driven through a seeded "
+         "history of 1..60 calls mixing real encoder packets (all modes incl. transitions, LBRR, DTX), mutated real packets, "
+         "structure-aware hostile packets (all codes, boundary lengths, padding chains), raw random bytes, NULL/0 loss "
+         "calls, FEC calls, reset and gain extremes, through float/int16/int24 entry points with frame_size from 0 to 1 s "
+         "incl. undersized and non-2.5ms-multiple values; packet inspectors run on exact-size copies. Distinct non-trivial = "
+         "signature (call kind, API, outcome class, model-valid framing, channels, TOC config+code, Fs, frame_size class, "
+         "has-history).",
+    assumptions=COMMON_ASSUME + ["oracles/rfc_framing.h decides which packets have valid framing (duration rule)",
+                                 "termination is observed as bounded running time (watchdog), not proved"],
+    evals_counter=None,
+    runs=[
+        dict(h='h_c01.c', mode='single', flavour='asan', n={'quick': 14000, 'thorough': 300000}),
+        dict(h='h_c01.c', mode='ms', flavour='asan', n={'quick': 6000, 'thorough': 120000}),
+        dict(h='h_c01.c', mode='single', flavour='asan-fixed', n={'quick': 6000, 'thorough': 150000}),
+        dict(h='h_c01.c', mode='ms', flavour='asan-fixed', n={'quick': 2000, 'thorough': 50000}),
+    ],
+    min_nontrivial={'quick': 1500, 'thorough': 3000},
+)
